@@ -486,6 +486,7 @@ pub fn prune(rep: &mut Report, tier: Tier) {
             let d = 1 + rng.below(2);
             let m = 1 + rng.below(2);
             let mut t = build::<2>(&mut rng, s, d, m, false, true);
+            let t_fresh = t.clone();
             let descr = format!("{}", x_of(&t).unwrap().descr());
             rep.evaluations += 1;
             rep.sample(descr.clone());
@@ -493,6 +494,26 @@ pub fn prune(rep: &mut Report, tier: Tier) {
             let had = eliminate_and_check(rep, idx, &mut t, &descr, "fresh", total);
             if had {
                 rep.nontrivial(&descr);
+            }
+            // sound cached states on an arbitrary subset of nodes (exact oracle: Infeasible only on exactly-empty closed regions, Feasible only on
+            // non-empty ones), in any position - also on a sibling that is still waiting on the traversal stack when its parent is examined:
+            // no panic, well-formed, same function (effectiveness / idempotence are NOT demanded here: such states need not come from a pipeline)
+            {
+                let mut t2 = t_fresh.clone();
+                let x2 = x_of(&t2).unwrap();
+                let mut marks = vec![];
+                for i in x2.nodes.keys() {
+                    if *i != x2.root && rng.chance(1, 2) {
+                        let st = if feasible(&x2.closed_region(*i), x2.in_dim) { affinitree::pwl::node::NodeState::Feasible } else { affinitree::pwl::node::NodeState::Infeasible };
+                        marks.push((*i, matches!(st, affinitree::pwl::node::NodeState::Infeasible)));
+                        t2.tree.node_value_mut(*i).unwrap().state = st;
+                    }
+                }
+                let d3 = format!("{descr} || preset states (node, infeasible): {:?}", marks);
+                rep.evaluations += 1;
+                if eliminate_and_check(rep, idx, &mut t2, &d3, "preset", false) && !marks.is_empty() {
+                    rep.nontrivial(&d3);
+                }
             }
             // pipeline with cached states: compose with a schema / tree, eliminate, twice
             for round in 0..2 {
